@@ -149,3 +149,7 @@ impl RegisterAllocator {
         self.registers.len() as u32
     }
 }
+
+#[cfg(kani)]
+#[path = "/verif/kani/engine/register.rs"]
+mod verif_kani;
